@@ -89,7 +89,11 @@ func genUploadCase(t *rapid.T) UploadCase {
 	for i := 0; i < n; i++ {
 		name := fmt.Sprintf("pkg_1.0-%d%s", i, rapid.SampledFrom([]string{".orig.tar.gz", ".debian.tar.xz", "_amd64.deb", ".dsc", ".tar.xz"}).Draw(t, "ext"))
 		if adversarial && rapid.IntRange(0, 1).Draw(t, "adv") == 0 {
-			name = rapid.SampledFrom([]string{"../outside/victim", "../outside/victim2", "../d1/planted", "sub/inner.tar.gz", "/outside/victim", "../../outside/victim", "sub/../../outside/victim", "./" + name, "..", "."}).Draw(t, "advname")
+			name = rapid.SampledFrom([]string{"../outside/victim", "../outside/victim2", "../d1/planted", "sub/inner.tar.gz", "/outside/victim", "../../outside/victim", "sub/../../outside/victim", "./" + name, "..", ".", "/", "//", "/.", "sub/", "../"}).Draw(t, "advname")
+		}
+		if !adversarial && rapid.IntRange(0, 19).Draw(t, "longname") == 0 {
+			// a legal name close to NAME_MAX (255)
+			name = strings.Repeat("n", rapid.SampledFrom([]int{200, 230, 245, 250, 255}).Draw(t, "longlen")-len(name)) + name
 		}
 		if seen[name] {
 			continue
@@ -469,8 +473,15 @@ func checkUploadCase(c UploadCase, r *Recorder) error {
 			return nil
 		}
 		if !allPlain {
-			// names that leave the directory: refusing is fine, succeeding is fine - containment was checked above
+			// names that leave the directory: refusing is fine, succeeding is fine - containment was checked above;
+			// but a refusal is a failure like any other: the control file stays where it was and is not in the destination
 			if operr != nil {
+				if b, err := os.ReadFile(filepath.Join(locDir, c.ctlName())); op.Kind != "copy" && (err != nil || !bytes.Equal(b, ctlBefore)) {
+					return errf("%s of an upload listing %v failed (%v) and the control file is no longer intact at its source", op.Kind, upNames(c.Files), operr)
+				}
+				if isRegular(ctlInDst) && op.Kind != "remove" && ctlInDstErr != nil {
+					return errf("%s of an upload listing %v failed (%v) but the control file is in the destination", op.Kind, upNames(c.Files), operr)
+				}
 				return nil
 			}
 		} else if c.SelfAt > 0 && operr != nil {
@@ -542,7 +553,7 @@ func upNames(fs []UpFile) []string {
 
 var specC20 = Register(&Spec[UploadCase]{
 	Prop: "C20", Name: "upload",
-	Rule: "histories of 1..3 operations (Copy/Move into d1|d2, Remove) on one .dsc or .changes handle over a fresh scratch tree root/{src,src/sub,d1,d2,outside}; 0..5 referenced files (sizes 0, 1, 7, 300, 32767..32769, 100000); a quarter of the uploads list adversarial names ('../outside/victim', '../d1/planted', 'sub/x', absolute, '..', '.', 'sub/../../outside/victim') and/or carry a literal 'Filename:' field pointing elsewhere, and a third of those have no Files field at all (Checksums-Sha256 only) or list the adversarial names in Checksums-Sha256 only; in a quarter of the cases both destinations already hold same-named files of the same length with other bytes (leftovers of an earlier upload); in a fifth of the cases d2 is on another file system (/dev/shm, when there is one), where a Move may fail as a whole but must not half-succeed; in a sixth of the cases the destination of the last operation holds a planted symbolic link to root/outside/victim under the name of a referenced file or of the control file; in an eighth the control file lists itself (refusing is fine, but then nothing may have moved and the control file is not in the destination); an operation whose destination is the directory the upload already lives in (also spelled d1/../src/.) must leave that directory bit-identical whatever it returns; the last operation optionally runs with ONE planted fault at step i in {file 0..n-1, control file}: source deleted, source replaced by a non-empty directory, a non-empty directory squatting on the destination name, destination directory missing or a regular file. Oracle: success (plain names, no fault) => all files and the control file byte-identical in the destination (Move: gone from source; Remove: gone), handle.Filename == dest/base; fault => an error, no regular control file in the destination, for Move/Remove the control file intact at its source; always => root/outside bit-identical, no destination file carries outside content, d1/planted untouched when d1 is not involved. Non-trivial: >= 2 files with a fault at step >= 1, or non-plain names; distinct by case.",
+	Rule: "histories of 1..3 operations (Copy/Move into d1|d2, Remove) on one .dsc or .changes handle over a fresh scratch tree root/{src,src/sub,d1,d2,outside}; 0..5 referenced files (sizes 0, 1, 7, 300, 32767..32769, 100000; one plain name in twenty is 200..255 bytes long); a quarter of the uploads list adversarial names ('../outside/victim', '../d1/planted', 'sub/x', absolute, '..', '.', '/', '//', '../', 'sub/../../outside/victim') and/or carry a literal 'Filename:' field pointing elsewhere, and a third of those have no Files field at all (Checksums-Sha256 only) or list the adversarial names in Checksums-Sha256 only; in a quarter of the cases both destinations already hold same-named files of the same length with other bytes (leftovers of an earlier upload); in a fifth of the cases d2 is on another file system (/dev/shm, when there is one), where a Move may fail as a whole but must not half-succeed; in a sixth of the cases the destination of the last operation holds a planted symbolic link to root/outside/victim under the name of a referenced file or of the control file; in an eighth the control file lists itself (refusing is fine, but then nothing may have moved and the control file is not in the destination); an operation whose destination is the directory the upload already lives in (also spelled d1/../src/.) must leave that directory bit-identical whatever it returns; the last operation optionally runs with ONE planted fault at step i in {file 0..n-1, control file}: source deleted, source replaced by a non-empty directory, a non-empty directory squatting on the destination name, destination directory missing or a regular file. Oracle: success (plain names, no fault) => all files and the control file byte-identical in the destination (Move: gone from source; Remove: gone), handle.Filename == dest/base; fault => an error, no regular control file in the destination, for Move/Remove the control file intact at its source; always => root/outside bit-identical, no destination file carries outside content, d1/planted untouched when d1 is not involved. Non-trivial: >= 2 files with a fault at step >= 1, or non-plain names; distinct by case.",
 	Check: checkUploadCase,
 })
 
